@@ -147,6 +147,55 @@ class HarnessError(Exception):
     """Raised for failures of the machinery itself; never reported as a property violation."""
 
 
+def raised_in_library(exc: BaseException) -> bool:
+    """True iff the innermost frames of the exception's traceback lie in the library under test (kaira) or below it (torch),
+    i.e. a call into the library raised; False when the harness's own code raised."""
+    import traceback
+
+    frames = traceback.extract_tb(exc.__traceback__)
+    seen_lib = False
+    for fr in frames:
+        fn = fr.filename.replace("\\", "/")
+        if "/kaira/" in fn:
+            seen_lib = True
+    return seen_lib
+
+
+def guard_execute(eng):
+    """Wrap an engine's execute(): an exception raised inside the library under test (not in harness code) while a case the
+    property covers is being run is a violation of that property (the library did not do what the property says), not a
+    failure of the machinery.  HarnessError and exceptions raised by harness code pass through."""
+    inner = eng.execute
+    if getattr(inner, "_guarded", False):
+        return inner
+
+    def execute(case):
+        try:
+            return inner(case)
+        except HarnessError:
+            raise
+        except Exception as e:  # noqa: BLE001
+            if not raised_in_library(e):
+                raise
+            import traceback
+
+            where = ""
+            for fr in traceback.extract_tb(e.__traceback__):
+                if "/kaira/" in fr.filename.replace("\\", "/"):
+                    where = f"{fr.filename.split('/kaira/')[-1]}:{fr.name}"
+            res = RunResult()
+            log = EventLog()
+            log.add("case", case)
+            log.add("raised", {"type": type(e).__name__, "where": where})
+            res.violations.append(Violation({"component": "library call", "kind": f"exception:{type(e).__name__}", "where": where},
+                                            f"{eng.PROPERTY}: a call into the library raised {type(e).__name__} in kaira/{where}: {str(e)[:200]}"))
+            res.digest, res.n_events = log.digest(), len(log)
+            return res
+
+    execute._guarded = True
+    return execute
+
+
 # --------------------------------------------------------------------------- known findings
 
 
